@@ -243,14 +243,21 @@ EvFinalBuffer ==
      IN Fail(Common \cup (IF rows # recent \/ Len(E.rows) # m THEN {"FinalBufferFaithful"} ELSE {}))
   /\ UNCHANGED <<phase, lastObs, queue, autoq, pend, executed, epsDone>>
 
+(* the components a routine hands back for continued training are distinct objects: a returned target that is (or
+   shares variables with) another returned component would be changed by that component's updates *)
+EvResult ==
+  /\ E.ev = "result"
+  /\ Fail(Common \cup (IF Len(E.aliased) > 0 THEN {"ResultComponentsDistinct"} ELSE {}))
+  /\ UNCHANGED <<phase, lastObs, queue, autoq, pend, executed, epsDone>>
+
 (* events without protocol content (buffer sampling, logger calls ...): frame clauses only *)
 EvOther ==
-  /\ E.ev \notin {"reset", "explore", "policy", "step", "add", "ret", "inner_call", "inner_ret", "final_buffer"}
+  /\ E.ev \notin {"reset", "explore", "policy", "step", "add", "ret", "inner_call", "inner_ret", "final_buffer", "result"}
   /\ Fail(Common)
   /\ UNCHANGED <<phase, lastObs, queue, autoq, pend, executed, epsDone>>
 
 Next == /\ l <= Len(T.events)
-        /\ (EvReset \/ EvExplore \/ EvPolicy \/ EvStep \/ EvAdd \/ EvRet \/ EvInnerCall \/ EvInnerRet \/ EvFinalBuffer \/ EvOther)
+        /\ (EvReset \/ EvExplore \/ EvPolicy \/ EvStep \/ EvAdd \/ EvRet \/ EvInnerCall \/ EvInnerRet \/ EvFinalBuffer \/ EvResult \/ EvOther)
         /\ Bump
 
 (* verdict lines: one per trace, printed when the trace is consumed *)
